@@ -16,7 +16,7 @@
 
 /* ------------------------------------------------------------------ failing / tracking allocator (public vtable API) */
 static long alloc_idx = -1;          /* -1: not counting */
-static long fail_at = -1; static int fail_all_after;
+static long fail_at = -1, fail_at2 = -1; static int fail_all_after;
 static long live_blocks; static long run_allocs;
 static void *fail_pc; static long fails_injected;
 static pthread_mutex_t amtx = PTHREAD_MUTEX_INITIALIZER;
@@ -25,7 +25,7 @@ static int __attribute__((noinline)) should_fail(void)
     long i;
     if (alloc_idx < 0) return 0;
     i = alloc_idx++;
-    if (fail_at >= 0 && (i == fail_at || (fail_all_after && i > fail_at))) { if (!fail_pc) fail_pc = __builtin_return_address(2); fails_injected++; return 1; }
+    if (fail_at >= 0 && (i == fail_at || i == fail_at2 || (fail_all_after && i > fail_at))) { if (!fail_pc) fail_pc = __builtin_return_address(2); fails_injected++; return 1; }
     return 0;
 }
 static ppointer v_malloc(psize n) { void *p; pthread_mutex_lock(&amtx); if (should_fail()) { pthread_mutex_unlock(&amtx); return NULL; } p = malloc(n ? n : 1); if (p) live_blocks++; pthread_mutex_unlock(&amtx); return p; }
@@ -218,6 +218,7 @@ static const Scenario SC[] = {
 /* retained by design: the pthread key of a PUThreadKey is documented as not removed; its block stays (C20 judges that, not C18) */
 static long tolerated_retention(const Scenario *s) { return !strcmp(s->name, "threads-tls") ? 1 : 0; }
 
+static long PAIR2 = -1;
 static int child_run(const Scenario *s, long k, int mode, long *nallocs)
 {
     static const PMemVTable vt = { v_malloc, v_realloc, v_free }; const char *v; long before;
@@ -228,10 +229,10 @@ static int child_run(const Scenario *s, long k, int mode, long *nallocs)
     }
     s->setup();
     before = live_blocks;
-    fail_at = k; fail_all_after = mode; alloc_idx = 0;
+    fail_at = k; fail_at2 = PAIR2; fail_all_after = mode; alloc_idx = 0;
     s->run();
     if (nallocs) *nallocs = alloc_idx;
-    alloc_idx = -1; fail_at = -1;
+    alloc_idx = -1; fail_at = -1; fail_at2 = -1;
     if (k >= 0 && fails_injected == 0) return 43;          /* the fault was never reached (nondeterministic allocation count) */
     if (live_blocks - before > tolerated_retention(s)) { fprintf(stderr, "LEAK %ld block(s)\n", live_blocks - before); return 41; }
     v = s->verify();
@@ -244,17 +245,19 @@ static void where(char *out, size_t n) { if (fail_pc) __sanitizer_symbolize_pc(f
 
 int main(int argc, char **argv)
 {
-    int i, only = -1; long total = 0, nontriv = 0;
+    int i, only = -1, pairs = 0; long total = 0, nontriv = 0;
     if (argc < 2) return 2;
     hout_open();
     snprintf(scratch, sizeof scratch, "%s", getenv("VERIF_SCRATCH_DIR") ? getenv("VERIF_SCRATCH_DIR") : "/tmp");
     snprintf(ini_path, sizeof ini_path, "%s/c18.ini", scratch);
     snprintf(ipcname, sizeof ipcname, "vf18_%d", (int)getpid());
     if (!strcmp(argv[1], "run") && argc >= 5) {
+        if (argc >= 6) PAIR2 = atol(argv[5]);
         for (i = 0; i < NSC; i++) if (!strcmp(SC[i].name, argv[2])) { int rc = child_run(&SC[i], atol(argv[3]), atoi(argv[4]), NULL); char w[128]; where(w, sizeof w); printf("scenario %s k=%s mode=%s: rc %d (failing allocation requested by %s)\n", argv[2], argv[3], argv[4], rc, w); return rc ? 1 : 0; }
         return 2;
     }
     if (argc >= 3) for (i = 0; i < NSC; i++) if (!strcmp(SC[i].name, argv[2])) only = i;
+    pairs = argc >= 4 && !strcmp(argv[3], "pairs");
     for (i = 0; i < NSC; i++) {
         long n = -1, k; int mode, st; pid_t pid; int pfd[2];
         if (only >= 0 && i != only) continue;
@@ -268,13 +271,14 @@ int main(int argc, char **argv)
             hout_viol("C18", sg, "", "scenario %s fails even without an injected fault (status %d)", SC[i].name, st); continue;
         }
         hout_note("scenario %s: %ld allocations", SC[i].name, n);
-        for (k = 0; k < n; k++) for (mode = 0; mode < 2; mode++) {
+        for (k = 0; k < n; k++) for (mode = 0; mode < (pairs ? (int)(n - k) : 2); mode++) {
             int efd[2]; char errbuf[1200] = "", wbuf[160] = "?"; ssize_t got; int wfd[2];
             if (pipe(efd) < 0 || pipe(wfd) < 0) return 2;
             total++;
             hout_progress("sig=%s/driver alloc_fault run %s %ld %d", SC[i].name, SC[i].name, k, mode);
+            if (pairs) PAIR2 = mode == 0 ? -1 : k + mode;
             pid = fork();
-            if (pid == 0) { int rc; char w[160]; dup2(efd[1], 2); close(efd[0]); close(wfd[0]); rc = child_run(&SC[i], k, mode, NULL); where(w, sizeof w); if (write(wfd[1], w, strlen(w) + 1) < 0) {} _exit(rc); }
+            if (pid == 0) { int rc; char w[160]; dup2(efd[1], 2); close(efd[0]); close(wfd[0]); rc = child_run(&SC[i], k, pairs ? 0 : mode, NULL); where(w, sizeof w); if (write(wfd[1], w, strlen(w) + 1) < 0) {} _exit(rc); }
             close(efd[1]); close(wfd[1]);
             got = read(efd[0], errbuf, sizeof errbuf - 1); if (got < 0) got = 0; errbuf[got] = 0; { char drain[512]; while (read(efd[0], drain, sizeof drain) > 0) ; } close(efd[0]);
             got = read(wfd[0], wbuf, sizeof wbuf - 1); if (got > 0) wbuf[got] = 0; close(wfd[0]);
@@ -285,9 +289,9 @@ int main(int argc, char **argv)
                 if (WIFEXITED(st) && WEXITSTATUS(st) == 41) kind = "leak"; else if (WIFEXITED(st) && WEXITSTATUS(st) == 42) kind = "pre-existing-object-changed"; else if (WIFEXITED(st) && WEXITSTATUS(st) == 43) kind = "fault-not-reached";
                 if (!strcmp(kind, "crash") && wbuf[0] == '?') { /* the child died before reporting: symbolize from the sanitizer output */ char *p = strstr(errbuf, " in "); if (p) { sscanf(p + 4, "%150s", wbuf); } }
                 snprintf(sg, sizeof sg, "%s/%s/%s", SC[i].name, kind, wbuf);
-                snprintf(rp, sizeof rp, "alloc_fault run %s %ld %d", SC[i].name, k, mode);
+                snprintf(rp, sizeof rp, "alloc_fault run %s %ld %d %ld", SC[i].name, k, pairs ? 0 : mode, pairs ? PAIR2 : -1L);
                 if (!strcmp(kind, "fault-not-reached")) { hout_note("scenario %s k=%ld: allocation count not stable, fault not reached", SC[i].name, k); continue; }
-                hout_viol("C18", sg, rp, "scenario %s, allocation #%ld fails (%s): %s%s%.600s", SC[i].name, k, mode ? "and all later ones" : "this one only",
+                hout_viol("C18", sg, rp, "scenario %s, allocation #%ld fails (%s): %s%s%.600s", SC[i].name, k, pairs ? (PAIR2 >= 0 ? "together with one later allocation" : "this one only") : mode ? "and all later ones" : "this one only",
                           !strcmp(kind, "crash") ? (WIFSIGNALED(st) ? "process killed by a signal / sanitizer abort" : "process aborted") : !strcmp(kind, "leak") ? "blocks allocated during the failed calls are still allocated after the objects involved were freed" : "an object that existed before the call was changed",
                           errbuf[0] ? "\n" : "", errbuf);
             }
